@@ -312,6 +312,7 @@ def run(ctx):
         got = None
         if g is not None:
             sub = type(ctx)(ctx.prop, ctx.prog, ctx.tier)
+            sub._sharing = True
             for bid, i, e in g.all_elems():
                 if lock_decl(e):
                     _check_lockable(sub, g, lock_mutex_type(e) or "", e)
